@@ -365,11 +365,12 @@ void rebuildAndJudgeInner(const Image &im, Session &ses)
         int steps = 0;
         std::string chain;
         // The entry's identity is the key in its metadata (the anchor key).  Every chain slot behind the
-        // first must carry that key in its cell header; the first slot's cell key is not judged (a wrong
-        // one only misplaces the anchor) but counted.
+        // first must carry, in its cell header, that key or the first slot's cell key (cells that agree
+        // with each other but not with the metadata only misplace the anchor; counted, not judged).
         const Ipc::StoreMapSliceId firstSid = a->start;
-        if (firstSid >= 0 && firstSid < n && !im.slots[firstSid].blank &&
-                !(Key{{im.slots[firstSid].h.key[0], im.slots[firstSid].h.key[1]}} == akey)) ++verdict->anchorKeyDiffers;
+        Key firstCellKey = akey;
+        if (firstSid >= 0 && firstSid < n && !im.slots[firstSid].blank) { firstCellKey.k[0] = im.slots[firstSid].h.key[0]; firstCellKey.k[1] = im.slots[firstSid].h.key[1]; }
+        if (!(firstCellKey == akey)) ++verdict->anchorKeyDiffers;
         for (Ipc::StoreMapSliceId sid = a->start; sid >= 0; ) {
             if (sid >= n) { setVerdict("chain:slot-out-of-range", who + " has slot " + std::to_string(sid) + " in its chain" + chain); break; }
             if (++steps > n) { setVerdict("chain:cyclic", who + " has a cyclic chain" + chain); break; }
@@ -387,7 +388,7 @@ void rebuildAndJudgeInner(const Image &im, Session &ses)
             const bool present = !disk.blank && at + (long)sizeof(Rock::DbCellHeader) <= fileLen;
             if (!present)
                 setVerdict("chain:slot-blank-or-cut-off-on-disk", who + " uses slot " + std::to_string(sid) + ", which is blank or truncated on disk; chain:" + chain);
-            else if (sid != firstSid && !(Key{{disk.h.key[0], disk.h.key[1]}} == akey))
+            else if (sid != firstSid && !(Key{{disk.h.key[0], disk.h.key[1]}} == akey) && !(Key{{disk.h.key[0], disk.h.key[1]}} == firstCellKey))
                 setVerdict("chain:slot-of-another-key", who + " uses slot " + std::to_string(sid) + ", whose on-disk header carries key " + std::to_string(disk.h.key[0]) + "; chain:" + chain);
             else if (disk.h.payloadSize != sz)
                 setVerdict("chain:slice-size-differs-from-disk", who + " slot " + std::to_string(sid) + " slice size " + std::to_string(sz) + " != on-disk payloadSize " + std::to_string(disk.h.payloadSize));
